@@ -132,6 +132,11 @@ def entity? : Sexp → Option Entity
              bodyRefs := ← natList? br, defTimeRefs := ← natList? dr }
   | _ => none
 
+partial def scope? : Sexp → Option Scope
+  | .list [.atom "scope", b, g, u, .list cs] => do
+      pure (.mk (← natList? b) (← natList? g) (← natList? u) (← cs.mapM scope?))
+  | _ => none
+
 def reeval : Nat → ObjId := fun i => 1000000 + i
 
 def run (f : Option String) : String := f.getD "bad-args"
@@ -173,6 +178,11 @@ def handlers : List (String × (List Sexp → String)) := [
         .list (.atom "decorators" :: e.decorators.map decoSexp),
         .list (.atom "trace" :: e.args.defEvalTrace.map Sexp.ofNat),
         .list (.atom "facfree" :: (create c.fn.code.freevars x i e).codeFreevars.map Sexp.ofNat)]))),
+  -- the general scoping rule: co_freevars of every code object of a nesting of function scopes, in preorder
+  ("c09.scopes", fun a => run do
+      let [x] := a | none
+      let sc ← scope? x
+      pure (toString (Sexp.list ((sc.allFreevars []).map fun l => .list (l.map Sexp.ofNat))))),
   ("c09.deco", fun a => run do
       let [l, .list ds] := a | none
       pure (toString (Sexp.list ((functionsPassDecorators (← l.nat?) (← ds.mapM deco?)).map decoSexp)))),
